@@ -71,6 +71,35 @@ def check(ctx):
     _r3(ctx, pkg)
     krome_reset(ctx, pkg, "R4")
     _r5(ctx, pkg)
+    _r6(ctx, pkg, ci)
+
+
+def _r6(ctx, pkg, ci):
+    """The grammars are written for Lark's default Earley parser with its dynamic lexer: terminals overlap on purpose (NUMBER is a
+    SIGNED number, WORD/NUMBER/UNDER chain into names) and only Earley lets the grammar decide where a token ends.  R1's rule-graph
+    argument is about that parser; a greedy (LALR / standard-lexer) construction tokenises `y+2` after a name as one atom."""
+    n = 0
+    for c in ast.walk(ci.node):
+        if isinstance(c, ast.Call) and ast.unparse(c.func) == "Lark":
+            n += 1
+            kw = {k.arg: k.value for k in c.keywords}
+            bad = []
+            for name in ("parser", "lexer"):
+                v = kw.get(name)
+                if v is None:
+                    continue
+                if isinstance(v, ast.Constant) and v.value in ("earley", "dynamic", "dynamic_complete"):
+                    continue
+                bad.append(f"{name}={ast.unparse(v)}")
+            amb = kw.get("ambiguity")
+            if amb is not None and not (isinstance(amb, ast.Constant) and amb.value == "resolve"):
+                bad.append(f"ambiguity={ast.unparse(amb)}")
+            ctx.check(not bad, "R6", "Lark(..): Earley with the dynamic lexer", (CF, c.lineno),
+                      "the parser is Lark's default (Earley, dynamic lexer)" if not bad else
+                      f"the parser is constructed with {bad}: with a greedy lexer the overlapping terminals of these grammars (signed NUMBER inside names) are cut differently, "
+                      "`x**y+2*z` becomes pow(x, y+2) * z",
+                      expected="Lark(grammar, start='expression')", found=ast.unparse(c)[:120])
+    ctx.floor("R6", "Lark constructions", n, 1)
 
 
 def _r5(ctx, pkg):
@@ -318,6 +347,7 @@ def _r3(ctx, pkg):
 
 
 MUTANTS = [
+    {"name": "lark-lalr", "file": CF, "old": 'self._parser = Lark(grammar, start="expression")', "new": 'self._parser = Lark(grammar, start="expression", parser="lalr")', "rules": ["R6"]},
     {"name": "krome-rateexpr-lru-cache", "file": KR, "old": "    def rateexpr(self, grain: Grain = None) -> str:", "new": "    @__import__('functools').lru_cache(maxsize=None)\n    def rateexpr(self, grain: Grain = None) -> str:", "rules": ["R5"]},
     {"name": "scientific-mantissa-e-last", "file": CF, "old": "            (s,) = s\n            return s.value", "new": "            if len(s) == 1:\n                return s[0].value\n            return f\"{s[0]}e{s[-1]}\"", "rules": ["R2"]},
     {"name": "fortran-grammar-D-exponent", "edits": [
